@@ -232,6 +232,7 @@ Definition results : list N := """ + gallina_list(defs) + ".\nEval vm_compute in
                 names.add_trace(rs["trace"])
         h = l4.History(c["id"], names)
         h.expect_ready = True
+        h.expect_tree = True
         for st, rs in zip(c["steps"], r):
             if st["op"] in ("init", "mktree", "walk", "backup", "arch", "restore"):
                 if st["op"] == "backup" and "walk" not in [s2["op"] for s2 in c["steps"][:c["steps"].index(st)]]:
